@@ -3,6 +3,7 @@ spec: ClientMux.tla (senders / reader / closer / waiter / process wrapper / clie
       Gen_ClientMux (controller schedules), Trace_ClientMux (acceptor of recorded executions)."""
 import json
 import os
+import sys
 import subprocess
 import vf
 
@@ -121,6 +122,12 @@ def run(ctx):
     traces2, ok2, acc2 = execute(ctx, binp, os_scns, "TestVerifC10RunOS", "Trace_ClientMuxOS", "os")
     ctx.notes["os_client"] = dict(schedules=len(os_scns), accepted=len(acc2))
     traces, ok = traces + traces2, ok + ok2
+    if not ctx.replay:
+        # ClientMux.tla's reader step takes "a read of the client's output returns a whole message, a clean end, or an
+        # error - within the timeout" as given: that is Framing.tla's binding (quick bounds)
+        sys.path.insert(0, os.path.dirname(os.path.abspath(__file__)))
+        import c09
+        c09.replay_leg(ctx, True)
     if ctx.notes.get("unreproduced_hangs") and not ctx.violations and not ctx.known_hits:
         h = ctx.notes["unreproduced_hangs"][0]
         raise vf.Machinery("unreproduced hang (%d in total): %s schedule=%s" % (len(ctx.notes["unreproduced_hangs"]), h["hang"], json.dumps(h["schedule"])))
